@@ -40,7 +40,7 @@ func runC10(rt *rapid.T, st *stats.Collector) {
 	if effRead == 0 {
 		effRead = ch.DefaultReadTimeout
 	}
-	kind := rapid.SampledFrom([]string{"cancel", "deadline"}).Draw(rt, "cancel-kind")
+	kind := rapid.SampledFrom([]string{"cancel", "deadline", "cancel-under-far-deadline"}).Draw(rt, "cancel-kind")
 	cancelStep := rapid.IntRange(0, 80).Draw(rt, "cancel-at-step")
 	g := newGatedRun(rt, sc, saneSteps)
 	defer g.cleanup()
@@ -51,6 +51,11 @@ func runC10(rt *rapid.T, st *stats.Collector) {
 	deadline := time.Now().Add(time.Duration(rapid.IntRange(1, 5000).Draw(rt, "deadline-ms")) * time.Millisecond)
 	if kind == "deadline" {
 		ctx, dlCancel = context.WithDeadline(base, deadline)
+		defer dlCancel()
+	}
+	if kind == "cancel-under-far-deadline" {
+		// explicit cancellation of a context that also carries a deadline far in the future
+		ctx, dlCancel = context.WithTimeout(base, time.Hour)
 		defer dlCancel()
 	}
 	steps := 0
@@ -64,7 +69,7 @@ func runC10(rt *rapid.T, st *stats.Collector) {
 		return []schedAction{{"CANCEL", func() {
 			g.canceled = true
 			remainingAtCancel = g.e.srv.Remaining()
-			if kind == "cancel" {
+			if kind != "deadline" {
 				tc = time.Now()
 				cancel()
 			} else {
